@@ -264,6 +264,7 @@ func partBinary(goose, dir, work, tier string, acc *ev.Acc) {
 		id    int
 		order []string
 		rep   int
+		procs int // GOMAXPROCS of the goose process (0: inherited)
 	}
 	var jobs []job
 	id := 0
@@ -290,7 +291,18 @@ func partBinary(goose, dir, work, tier string, acc *ev.Acc) {
 			}
 			for rep := 0; rep < reps; rep++ {
 				id++
-				jobs = append(jobs, job{id, order, rep})
+				jobs = append(jobs, job{id, order, rep, 0})
+			}
+			// the number of processors must not matter either (work split between a bounded number of workers)
+			if len(set) >= 3 {
+				maxp := 3
+				if len(set) == len(pkgNames) {
+					maxp = len(set) - 1
+				}
+				for p := 1; p <= maxp; p++ {
+					id++
+					jobs = append(jobs, job{id, order, 0, p})
+				}
 			}
 		}
 	}
@@ -303,12 +315,16 @@ func partBinary(goose, dir, work, tier string, acc *ev.Acc) {
 			for j := range ch {
 				order, rep := j.order, j.rep
 				out := filepath.Join(work, fmt.Sprintf("joint%d", j.id))
-				code, stderr := runBin(goose, dir, out, nil, pats(order))
+				var env []string
+				if j.procs > 0 {
+					env = []string{fmt.Sprintf("GOMAXPROCS=%d", j.procs)}
+				}
+				code, stderr := runBin(goose, dir, out, env, pats(order))
 				got := tree(out)
 				os.RemoveAll(out)
 				acc.Add("binary_invocations", 1)
 				viol := func(kind, msg string) {
-					acc.Violate(ev.Violation{Key: fmt.Sprintf("C06/binary/%s/%s", kind, strings.Join(order, ",")), Msg: fmt.Sprintf("goose %s (run %d): %s", strings.Join(pats(order), " "), rep+1, msg), Replay: map[string]any{"part": "binary", "packages": order}})
+					acc.Violate(ev.Violation{Key: fmt.Sprintf("C06/binary/%s/%s", kind, strings.Join(order, ",")), Msg: fmt.Sprintf("goose %s (run %d, GOMAXPROCS=%d): %s", strings.Join(pats(order), " "), rep+1, j.procs, msg), Replay: map[string]any{"part": "binary", "packages": order}})
 				}
 				wantCode := 0
 				want := map[string]string{}
@@ -440,7 +456,7 @@ func main() {
 	os.RemoveAll(work)
 	os.Exit(acc.Done(ev.Finish{
 		Prop: "C06", Tier: *tier, Level: "model_checking", Start: start,
-		Rule:        "fixture of 8 packages (plain; two files on the disk FFI; conversion errors among good declarations; importing another package and re-using its identifiers with other shapes; sync + an error; a package exporting a struct / method / constant / interface and a package using them; a declaration with seven independent forward references). (B) the real TranslatePackages under the controlled scheduler (interface.go instrumented by overlay: workers are controlled threads, WaitGroup/channels are scheduler objects, preemption points at function entries and loop heads, i.e. between declarations; every range over a map in the translator and printer iterates in an order chosen by the explorer; packages.Load memoised): every pair of packages with <=2 preemptions and every triple with <=1 (thorough: pairs 3, triples 2, quadruples 1), in both pattern orders; oracle: every returned (package, file bytes, error text) equals the solo translation and the returned sequence is the same in every schedule. (A) the real binary, free-running: every singleton and pair, every subset of the first five, the triples around the exporting/importing pair and all eight at once, in both orders, repeated: exit status, files and stderr equal those composed from solo runs. (C) a -race build of cmd/goose translating all packages with GOMAXPROCS 1, 2, 16",
+		Rule:        "fixture of 8 packages (plain; two files on the disk FFI; conversion errors among good declarations; importing another package and re-using its identifiers with other shapes; sync + an error; a package exporting a struct / method / constant / interface and a package using them; a declaration with seven independent forward references). (B) the real TranslatePackages under the controlled scheduler (interface.go instrumented by overlay: workers are controlled threads, WaitGroup/channels are scheduler objects, preemption points at function entries and loop heads, i.e. between declarations; every range over a map in the translator and printer iterates in an order chosen by the explorer; packages.Load memoised): every pair of packages with <=2 preemptions and every triple with <=1 (thorough: pairs 3, triples 2, quadruples 1), in both pattern orders; oracle: every returned (package, file bytes, error text) equals the solo translation and the returned sequence is the same in every schedule. (A) the real binary, free-running: every singleton and pair, every subset of the first five, the triples around the exporting/importing pair and all eight at once, in both orders, repeated, the larger sets also under GOMAXPROCS 1..3 (all eight: 1..7): exit status, files and stderr equal those composed from solo runs. (C) a -race build of cmd/goose translating all packages with GOMAXPROCS 1, 2, 16",
 		Assumptions: []string{"interleavings inside the translation of one declaration (goose.go has no preemption points) are covered only by the free-running -race pass", "the loaded packages are treated as read-only and shared between explored executions"},
 		Extra:       mcx.Extra(acc, map[string]any{}),
 	}))
